@@ -186,3 +186,56 @@ Section Agree.
       destruct Hv as [-> | ->]; unfold finish; cbn [snd]; [exact H|exact I].
   Qed.
 End Agree.
+
+(* ---------------------------------------------------------------- the Thrown outcome needs an injected failure
+   (complements the refusal-agreement theorems, whose Thrown branch is `True`: with the empty failure schedule the two-phase
+   operations never throw; what a throw leaves behind is the subject of the atomicity theorems) *)
+Lemma u_phase_none_not_thrown f bad applies : forall hs j step tag,
+  snd (fst (u_phase f bad applies None hs j step tag)) <> Some Thrown.
+Proof.
+  induction hs as [|u hs IH]; intros j step tag; cbn [u_phase]; [discriminate|].
+  destruct (negb (applies u)).
+  - specialize (IH (S j) step tag). destruct (u_phase f bad applies None hs (S j) step tag) as [[a b] c]. exact IH.
+  - change (hits None step) with false. cbn iota. destruct (f u (tag + j)) as [u' r]. destruct (bad r); [discriminate|].
+    specialize (IH (S j) (S step) tag). destruct (u_phase f bad applies None hs (S j) (S step) tag) as [[a b] c]. exact IH.
+Qed.
+
+Lemma m_phase_none_verdict f applies : forall ms j step tag, snd (fst (m_phase f applies None ms j step tag)) = None.
+Proof.
+  induction ms as [|m ms IH]; intros j step tag; cbn [m_phase]; [reflexivity|].
+  destruct (negb (applies m)).
+  - specialize (IH (S j) step tag). destruct (m_phase f applies None ms (S j) step tag) as [[a b] c]. exact IH.
+  - change (hits None step) with false. cbn iota.
+    specialize (IH (S j) (S step) tag). destruct (m_phase f applies None ms (S j) (S step) tag) as [[a b] c]. exact IH.
+Qed.
+
+Theorem no_failure_no_throw fixu fixm ord R ct s :
+  (forall raw, snd (add_raw ord R ct None s raw) <> Thrown) /\
+  (forall old new, snd (update_raw fixu fixm ord R ct None s old new) <> Thrown) /\
+  (forall raw c v, snd (fst (update_col fixu fixm ord R ct None s raw c v)) <> Thrown) /\
+  (forall raw, snd (remove_raw fixu fixm R ct None s raw) = Accepted).
+Proof.
+  split; [|split; [|split]].
+  - intros raw. unfold add_raw.
+    match goal with |- context [u_phase ?f ?b ?a None (uhs s) 0 0 (ntag s)] =>
+      pose proof (u_phase_none_not_thrown f b a (uhs s) 0 0 (ntag s)) as Hu; destruct (u_phase f b a None (uhs s) 0 0 (ntag s)) as [[us1 [o|]] st1] end.
+    + cbn [fst snd] in *. unfold finish. cbn [fst snd]. intros E. apply Hu. rewrite E. reflexivity.
+    + match goal with |- context [m_phase ?f ?a None (mhs s) 0 st1 ?tg] =>
+        pose proof (m_phase_none_verdict f a (mhs s) 0 st1 tg) as Hm; destruct (m_phase f a None (mhs s) 0 st1 tg) as [[ms1 v2] st2] end.
+      cbn [fst snd] in Hm. subst v2. discriminate.
+  - intros old new. unfold update_raw.
+    match goal with |- context [u_phase ?f ?b ?a None (uhs s) 0 0 (ntag s)] =>
+      pose proof (u_phase_none_not_thrown f b a (uhs s) 0 0 (ntag s)) as Hu; destruct (u_phase f b a None (uhs s) 0 0 (ntag s)) as [[us1 [o|]] st1] end.
+    + cbn [fst snd] in *. unfold finish. cbn [fst snd]. intros E. apply Hu. rewrite E. reflexivity.
+    + match goal with |- context [m_phase ?f ?a None (mhs s) 0 st1 ?tg] =>
+        pose proof (m_phase_none_verdict f a (mhs s) 0 st1 tg) as Hm; destruct (m_phase f a None (mhs s) 0 st1 tg) as [[ms1 v2] st2] end.
+      cbn [fst snd] in Hm. subst v2. discriminate.
+  - intros raw c v. unfold update_col. destruct (Z.eqb v (getc (ct raw) c)); [discriminate|].
+    match goal with |- context [u_phase ?f ?b ?a None (uhs s) 0 0 (ntag s)] =>
+      pose proof (u_phase_none_not_thrown f b a (uhs s) 0 0 (ntag s)) as Hu; destruct (u_phase f b a None (uhs s) 0 0 (ntag s)) as [[us1 [o|]] st1] end.
+    + cbn [fst snd] in *. unfold finish. cbn [fst snd]. intros E. apply Hu. rewrite E. reflexivity.
+    + match goal with |- context [m_phase ?f ?a None (mhs s) 0 st1 ?tg] =>
+        pose proof (m_phase_none_verdict f a (mhs s) 0 st1 tg) as Hm; destruct (m_phase f a None (mhs s) 0 st1 tg) as [[ms1 v2] st2] end.
+      cbn [fst snd] in Hm. subst v2. change (hits None st2) with false. cbn iota. discriminate.
+  - intros raw. reflexivity.
+Qed.
